@@ -73,8 +73,8 @@ func parseWrOp(f []string) (wrOp, bool) {
 	return wrOp{}, false
 }
 
-// item wraps a value for the implementation: gated when the call is the one to be parked. Stored items are always
-// plain kv (a gated value handed to Insert/Update is stored as given — so those are unwrapped when read back).
+// item wraps a value for the implementation: gated when the call is the one to be parked. Only lookup keys are gated,
+// except for a parked Insert, whose (gated) item is what gets stored — every read-back goes through plain().
 func item(x kv, g *gate) tree.Node {
 	if g == nil {
 		return x
@@ -95,9 +95,9 @@ func plain(n tree.Node) (kv, bool) {
 func (o wrOp) run(b *tree.BTree, g *gate) string {
 	switch o.kind {
 	case "upd":
-		return strconv.FormatBool(b.Update(item(kv{k: o.old}, g), item(o.x, g)))
+		return strconv.FormatBool(b.Update(item(kv{k: o.old}, g), o.x))
 	case "ups":
-		return strconv.FormatBool(b.UpdateOrInsert(item(kv{k: o.old}, g), item(o.x, g)))
+		return strconv.FormatBool(b.UpdateOrInsert(item(kv{k: o.old}, g), o.x))
 	case "del":
 		return strconv.FormatBool(b.Delete(item(kv{k: o.old}, g)))
 	case "ins":
@@ -220,7 +220,13 @@ func (w *world) race(f []string) string {
 	return fmt.Sprintf("a=%s b=%s items=%s", resA, resB, showKVs(got))
 }
 
+// fatalExit ends the process with a harness error. In the worker process the exit status is 3 (the Go runtime's own
+// fatal errors use 2, which must stay distinguishable: those are the implementation's crashes); the parent turns 3
+// into the harness-error status 2 of the runner.
 func fatalExit(msg string) {
 	fmt.Fprintln(os.Stderr, "harness error:", msg)
+	if isWorker {
+		os.Exit(3)
+	}
 	os.Exit(2)
 }
